@@ -50,6 +50,7 @@ import (
 	"github.com/attestantio/go-eth2-client/spec/phase0"
 	"github.com/attestantio/vouch/mock"
 	standardattester "github.com/attestantio/vouch/services/attester/standard"
+	"github.com/attestantio/vouch/services/beaconcommitteesubscriber"
 	"github.com/attestantio/vouch/services/chaintime"
 	nullmetrics "github.com/attestantio/vouch/services/metrics/null"
 	advancedscheduler "github.com/attestantio/vouch/services/scheduler/advanced"
@@ -85,6 +86,7 @@ type c20Step struct {
 	S      uint64     `json:"s"`
 	Ok     bool       `json:"ok"`
 	Split  bool       `json:"split"` // Head: the node answers the refresh's duty request late (Resched)
+	K      uint64     `json:"k"`     // MsgStart / AttStart / Prepare: the node answers k slots later (the scenario has the MsgEnd / AttEnd / SubEnd step there)
 }
 
 type c20Scenario struct {
@@ -236,12 +238,152 @@ func (n *c20Node) BeaconBlockRoot(_ context.Context, _ *api.BeaconBlockRootOpts)
 	n.calls++
 	ok := n.rootOK
 	n.mu.Unlock()
+	return c20HeadRoot(ok)
+}
+
+func c20HeadRoot(ok bool) (*api.Response[*phase0.Root], error) {
 	if !ok {
 		return nil, errors.New("c20: beacon node does not answer")
 	}
 	var root phase0.Root
 	root[0] = 0x21
 	return &api.Response[*phase0.Root]{Data: &root, Metadata: map[string]any{}}, nil
+}
+
+// c20RootGate holds one head root request of the messenger: the sync committee message job of the slot is in
+// flight (inside Message(), before SetBeaconBlockRoot / UpdateSyncCommitteeDataRecord) while it waits.
+type c20RootGate struct {
+	slot    uint64
+	arrived chan struct{} // closed when the request is with the node
+	ok      bool          // the answer (fixed when the node is let answer)
+	taken   bool
+}
+
+// c20Roots is the beacon node as the REAL sync committee messenger sees it for its head root requests (the
+// aggregator asks c20Node directly).  The request carries no slot: the driver arms a gate for the NEXT request
+// before it starts the job of the slot.  A request that waits is entered in the harness' list of kept-back
+// replies (kind "c20root", key = slot), so that the harness' quiescence rule accounts for its goroutine.
+type c20Roots struct {
+	h    *c03Harness
+	node *c20Node
+	mu   sync.Mutex
+	next *c20RootGate
+}
+
+func (r *c20Roots) arm(slot uint64) *c20RootGate {
+	g := &c20RootGate{slot: slot, arrived: make(chan struct{}), ok: true}
+	r.mu.Lock()
+	r.next = g
+	r.mu.Unlock()
+	return g
+}
+
+// disarm removes a gate nobody has arrived at; false if the request is waiting there already.
+func (r *c20Roots) disarm(g *c20RootGate) bool {
+	r.mu.Lock()
+	defer r.mu.Unlock()
+	if g.taken {
+		return false
+	}
+	if r.next == g {
+		r.next = nil
+	}
+	return true
+}
+
+func (r *c20Roots) BeaconBlockRoot(ctx context.Context, opts *api.BeaconBlockRootOpts) (*api.Response[*phase0.Root], error) {
+	r.mu.Lock()
+	g := r.next
+	r.next = nil
+	if g != nil {
+		g.taken = true
+	}
+	r.mu.Unlock()
+	if g == nil {
+		return r.node.BeaconBlockRoot(ctx, opts)
+	}
+	x := &c03Held{K: "c20root", Key: g.slot, release: make(chan struct{})}
+	r.h.mu.Lock()
+	r.h.calls++
+	r.h.held = append(r.h.held, x)
+	r.h.mu.Unlock()
+	close(g.arrived)
+	<-x.release
+	r.mu.Lock()
+	ok := g.ok
+	r.mu.Unlock()
+	return c20HeadRoot(ok)
+}
+
+// c20Subscriber is the beacon committee subscriber the controller is given: the harness' recording fake behind a
+// gate per epoch.  While Subscribe(epoch) waits (kind "c20sub", key = epoch) subscriptionInfos[epoch] is not set:
+// the subscription completes - however late - when the driver releases it (SubEnd).
+type c20Subscriber struct {
+	h     *c03Harness
+	inner beaconcommitteesubscriber.Service
+	mu    sync.Mutex
+	armed map[uint64]bool
+}
+
+func (s *c20Subscriber) arm(epoch uint64, on bool) {
+	s.mu.Lock()
+	if s.armed == nil {
+		s.armed = map[uint64]bool{}
+	}
+	if on {
+		s.armed[epoch] = true
+	} else {
+		delete(s.armed, epoch)
+	}
+	s.mu.Unlock()
+}
+
+func (s *c20Subscriber) Subscribe(ctx context.Context, epoch phase0.Epoch, accounts map[phase0.ValidatorIndex]e2wtypes.Account,
+) (map[phase0.Slot]map[phase0.CommitteeIndex]*beaconcommitteesubscriber.Subscription, error) {
+	s.mu.Lock()
+	hold := s.armed[uint64(epoch)]
+	delete(s.armed, uint64(epoch))
+	s.mu.Unlock()
+	if hold {
+		x := &c03Held{K: "c20sub", Key: uint64(epoch), release: make(chan struct{})}
+		s.h.mu.Lock()
+		s.h.calls++
+		s.h.held = append(s.h.held, x)
+		s.h.mu.Unlock()
+		<-x.release
+	}
+	return s.inner.Subscribe(ctx, epoch, accounts)
+}
+
+// c20HeldKeys lists the keys of the calls of kind k that wait at a c20 gate.
+func (w *c20World) heldKeys(k string) []uint64 {
+	res := map[uint64]bool{}
+	for _, c := range w.h.Held() {
+		if c.K == k {
+			res[c.Key] = true
+		}
+	}
+	return c20Sorted(res)
+}
+
+// releaseRaw lets the oldest call (k, key) through without the harness' quiescence wait (the run on the real
+// scheduler: its goroutines defeat the rule).
+func (w *c20World) releaseRaw(k string, key uint64) bool {
+	w.h.mu.Lock()
+	var x *c03Held
+	for i, c := range w.h.held {
+		if c.K == k && c.Key == key {
+			x = c
+			w.h.held = append(w.h.held[:i], w.h.held[i+1:]...)
+			break
+		}
+	}
+	w.h.mu.Unlock()
+	if x == nil {
+		return false
+	}
+	close(x.release)
+	return true
 }
 
 func (n *c20Node) SyncCommitteeContribution(_ context.Context, opts *api.SyncCommitteeContributionOpts) (*api.Response[*altair.SyncCommitteeContribution], error) {
@@ -364,6 +506,13 @@ type c20World struct {
 	decided map[[2]uint64]bool // (epoch, version) for which the node's attester duties are fixed
 	syncSet map[[2]uint64]bool
 	flights map[uint64]*c20Flight // attestation jobs that are running (held at the node's gate), by slot
+	roots   *c20Roots             // the node's head roots as the messenger gets them (gate)
+	subsc   *c20Subscriber        // beacon committee subscriber (gate)
+	// sync committee message jobs that are running (their head root request held at the node), by slot
+	msgFlights map[uint64]*c20MsgFlight
+	// scripted steps still to come that end a call under way: kind (att, msg, sub) -> key -> count.  A call that
+	// the scenario means to end later is left in flight when the slot ends (it completes out of order).
+	endsAhead map[string]map[uint64]int
 	// Env_OutageBounded as it really happened: epochs in which an attestation job ran / one succeeded
 	g         uint64
 	ran, succ map[uint64]bool
@@ -391,6 +540,13 @@ func (w *c20World) mayFail(s uint64) bool {
 	return gap < w.g
 }
 
+// c20MsgFlight is a sync committee message job in flight.
+type c20MsgFlight struct {
+	gate     *c20RootGate
+	done     chan bool
+	scripted bool
+}
+
 // c20Flight is an attestation job in flight.
 type c20Flight struct {
 	gate     *c20Gate
@@ -403,7 +559,18 @@ func c20Build(t *testing.T, sc *c20Scenario, st c20Step, ct chaintime.Service, s
 	t.Helper()
 	ctx := context.Background()
 	w := &c20World{t: t, sc: sc, p: st.P, ep: st.EP, verify: st.Verify, decided: map[[2]uint64]bool{}, syncSet: map[[2]uint64]bool{},
-		flights: map[uint64]*c20Flight{}, g: st.G, ran: map[uint64]bool{}, succ: map[uint64]bool{}}
+		flights: map[uint64]*c20Flight{}, g: st.G, ran: map[uint64]bool{}, succ: map[uint64]bool{},
+		msgFlights: map[uint64]*c20MsgFlight{}, endsAhead: map[string]map[uint64]int{"att": {}, "msg": {}, "sub": {}}}
+	for _, x := range sc.Steps {
+		switch x.Ev {
+		case "AttEnd":
+			w.endsAhead["att"][x.S]++
+		case "MsgEnd":
+			w.endsAhead["msg"][x.S]++
+		case "SubEnd":
+			w.endsAhead["sub"][x.E]++
+		}
+	}
 	if w.g == 0 {
 		w.g = 2
 	}
@@ -413,6 +580,9 @@ func c20Build(t *testing.T, sc *c20Scenario, st c20Step, ct chaintime.Service, s
 		ct = w.h.ChainTime
 	}
 	w.node = &c20Node{p: st.P, attOK: true, rootOK: true}
+	w.roots = &c20Roots{h: w.h, node: w.node}
+	w.subsc = &c20Subscriber{h: w.h, inner: w.h.BeaconCommitteeSubscriber}
+	w.h.BeaconCommitteeSubscriber = w.subsc
 	spec := &c20Spec{p: st.P, ep: st.EP, slotDur: slotDur}
 	signer := &c20Signer{agg: st.Agg}
 
@@ -452,7 +622,7 @@ func c20Build(t *testing.T, sc *c20Scenario, st c20Step, ct chaintime.Service, s
 		standardsynccommitteemessenger.WithChainTimeService(ct),
 		standardsynccommitteemessenger.WithSyncCommitteeAggregator(w.agg),
 		standardsynccommitteemessenger.WithSpecProvider(spec),
-		standardsynccommitteemessenger.WithBeaconBlockRootProvider(w.node),
+		standardsynccommitteemessenger.WithBeaconBlockRootProvider(w.roots),
 		standardsynccommitteemessenger.WithSyncCommitteeMessagesSubmitter(w.node),
 		standardsynccommitteemessenger.WithSyncCommitteeSubscriptionsSubmitter(mock.NewSyncCommitteeSubscriptionsSubmitter()),
 		standardsynccommitteemessenger.WithValidatingAccountsProvider(w.h),
@@ -612,6 +782,8 @@ func (w *c20World) project(ev verifsupport.Ev, jobNames []string, now uint64) ve
 		running[s] = true
 	}
 	ev["running"] = c20Sorted(running)
+	ev["msgrun"] = w.heldKeys("c20root")
+	ev["subrun"] = w.heldKeys("c20sub")
 	return ev
 }
 
@@ -702,6 +874,9 @@ func (w *c20World) attStart(tr *verifsupport.Trace, s uint64, ok bool, scripted 
 
 // attEnd lets the node answer the attestation data request of slot s: AttEnd when the job's body has returned.
 func (w *c20World) attEnd(tr *verifsupport.Trace, s uint64, scripted bool) {
+	if scripted && w.endsAhead["att"][s] > 0 {
+		w.endsAhead["att"][s]--
+	}
 	f := w.flights[s]
 	if f == nil {
 		return // the job was logged as a whole
@@ -718,7 +893,8 @@ func (w *c20World) attEnd(tr *verifsupport.Trace, s uint64, scripted bool) {
 	w.check(w.h.Quiesce())
 	w.fireSilent()
 	w.ran[s/w.p] = true
-	if w.node.didSubmit(s) {
+	if w.node.didSubmit(s) && w.h.Now()/w.p == s/w.p {
+		// (a success that comes epochs late does not count for Env_OutageBounded)
 		w.succ[s/w.p] = true
 	}
 	w.emit(tr, verifsupport.Ev{"ev": "AttEnd", "s": s, "ok": f.ok, "submitted": w.node.didSubmit(s), "fired": fired, "gated": true, "scripted": scripted && f.scripted})
@@ -757,6 +933,7 @@ func (w *c20World) resched(tr *verifsupport.Trace, e uint64, scripted bool) {
 	w.emit(tr, verifsupport.Ev{"ev": "Resched", "e": e, "fired": fired, "scripted": scripted})
 }
 
+// syncMsg runs the sync committee message job of slot s from start to end (the node answers at once).
 func (w *c20World) syncMsg(tr *verifsupport.Trace, s uint64, ok bool, scripted bool) {
 	w.node.set(true, ok)
 	fired, err := w.h.FireJob(c03JobName("syncmsg", s))
@@ -765,17 +942,107 @@ func (w *c20World) syncMsg(tr *verifsupport.Trace, s uint64, ok bool, scripted b
 	w.emit(tr, verifsupport.Ev{"ev": "SyncMsg", "s": s, "ok": ok, "fired": fired, "scripted": scripted})
 }
 
+// msgStart fires the sync committee message job of slot s on its own goroutine, as the scheduler does.  MsgStart
+// is logged when the REAL messenger's Message() has reached the node with its head root request: the job stays
+// there - whatever the following steps are: the jobs of later slots on the same messenger and aggregator, their
+// aggregations, head events, the clock - until msgEnd lets the node answer.  A job that returns without asking
+// the node (no such job) is logged as a whole (SyncMsg, fired as it was).
+func (w *c20World) msgStart(tr *verifsupport.Trace, s uint64, k uint64, scripted bool) bool {
+	if w.msgFlights[s] != nil {
+		w.t.Fatalf("c20: scenario %d: sync committee message job for slot %d started twice", w.sc.Sc, s)
+	}
+	g := w.roots.arm(s)
+	w.h.begin()
+	done := make(chan bool, 1)
+	go func() { done <- w.h.Sched.Fire(w.h.Ctx, c03JobName("syncmsg", s)) }()
+	select {
+	case <-g.arrived:
+		w.check(w.h.Quiesce())
+		w.msgFlights[s] = &c20MsgFlight{gate: g, done: done, scripted: scripted}
+		w.emit(tr, verifsupport.Ev{"ev": "MsgStart", "s": s, "k": k, "scripted": scripted})
+		return true
+	case fired := <-done:
+		if !w.roots.disarm(g) {
+			w.t.Fatalf("c20: scenario %d: sync committee message job for slot %d returned with its request at the node", w.sc.Sc, s)
+		}
+		w.check(w.h.Quiesce())
+		w.fireSilent()
+		w.emit(tr, verifsupport.Ev{"ev": "SyncMsg", "s": s, "ok": true, "fired": fired, "scripted": scripted})
+	case <-time.After(30 * time.Second):
+		w.t.Fatalf("c20: scenario %d: sync committee message job for slot %d neither reached the node nor returned", w.sc.Sc, s)
+	}
+	return false
+}
+
+// msgEnd lets the node answer the head root request of slot s (ok: with a root): MsgEnd when Message() and the
+// job have returned - SetBeaconBlockRoot(s) and UpdateSyncCommitteeDataRecord(s) have run NOW, whichever
+// slots' calls ran in between.
+func (w *c20World) msgEnd(tr *verifsupport.Trace, s uint64, ok bool, scripted bool) {
+	if scripted && w.endsAhead["msg"][s] > 0 {
+		w.endsAhead["msg"][s]--
+	}
+	f := w.msgFlights[s]
+	if f == nil {
+		return // the job was logged as a whole
+	}
+	w.roots.mu.Lock()
+	f.gate.ok = ok
+	w.roots.mu.Unlock()
+	released, err := w.h.ReleaseCall("c20root", s, 0, "")
+	w.check(err)
+	if !released {
+		w.t.Fatalf("c20: scenario %d: the head root request of slot %d is not with the node", w.sc.Sc, s)
+	}
+	fired := false
+	select {
+	case fired = <-f.done:
+	case <-time.After(30 * time.Second):
+		w.t.Fatalf("c20: scenario %d: sync committee message job for slot %d does not return", w.sc.Sc, s)
+	}
+	delete(w.msgFlights, s)
+	w.check(w.h.Quiesce())
+	w.fireSilent()
+	w.emit(tr, verifsupport.Ev{"ev": "MsgEnd", "s": s, "ok": ok, "fired": fired, "late": w.h.Now() - s, "scripted": scripted && f.scripted})
+}
+
+// subEnd lets the node complete the beacon committee subscription of epoch e that a Prepare step started.
+func (w *c20World) subEnd(tr *verifsupport.Trace, e uint64, scripted bool) {
+	if scripted && w.endsAhead["sub"][e] > 0 {
+		w.endsAhead["sub"][e]--
+	}
+	fired, err := w.h.ReleaseCall("c20sub", e, 0, "")
+	w.check(err)
+	w.fireSilent()
+	w.emit(tr, verifsupport.Ev{"ev": "SubEnd", "e": e, "fired": fired, "scripted": scripted})
+}
+
 func (w *c20World) syncAgg(tr *verifsupport.Trace, s uint64, scripted bool) {
 	fired, err := w.h.FireJob(c03JobName("syncagg", s))
 	w.check(err)
 	w.emit(tr, verifsupport.Ev{"ev": "SyncAgg", "s": s, "fired": fired, "scripted": scripted})
 }
 
-func (w *c20World) prepare(tr *verifsupport.Trace, e uint64, scripted bool) {
+// prepare fires "Prepare for epoch e"; with hold the node keeps the beacon committee subscription of the epoch
+// back (subEnd completes it): subheld lists the epochs for which that has happened in this step.
+func (w *c20World) prepare(tr *verifsupport.Trace, e uint64, hold bool, scripted bool) {
+	before := map[uint64]bool{}
+	for _, x := range w.heldKeys("c20sub") {
+		before[x] = true
+	}
+	if hold && !before[e] {
+		w.subsc.arm(e, true)
+	}
 	fired, err := w.h.FireJob(c03JobName("prepepoch", e))
 	w.check(err)
+	w.subsc.arm(e, false)
 	w.fireSilent()
-	w.emit(tr, verifsupport.Ev{"ev": "Prepare", "e": e, "fired": fired, "scripted": scripted})
+	subheld := []uint64{}
+	for _, x := range w.heldKeys("c20sub") {
+		if !before[x] {
+			subheld = append(subheld, x)
+		}
+	}
+	w.emit(tr, verifsupport.Ev{"ev": "Prepare", "e": e, "fired": fired, "subheld": subheld, "scripted": scripted})
 }
 
 // finishSlot plays the timely scheduler for the jobs of the current slot that the scenario has not
@@ -787,8 +1054,19 @@ func (w *c20World) finishSlot(tr *verifsupport.Trace) {
 		w.resched(tr, c.Key, false)
 	}
 	for _, s := range c20Sorted(w.flightSet()) {
-		if s < now {
+		if s < now && w.endsAhead["att"][s] == 0 {
 			w.attEnd(tr, s, false)
+		}
+	}
+	// calls the scenario does not end later are answered within the slot
+	for _, s := range w.heldKeys("c20root") {
+		if w.endsAhead["msg"][s] == 0 {
+			w.msgEnd(tr, s, true, false)
+		}
+	}
+	for _, e := range w.heldKeys("c20sub") {
+		if w.endsAhead["sub"][e] == 0 {
+			w.subEnd(tr, e, false)
 		}
 	}
 	for round := 0; round < 50; round++ {
@@ -802,7 +1080,11 @@ func (w *c20World) finishSlot(tr *verifsupport.Trace) {
 			jk, jn := c03ParseName(j.Name)
 			due := false
 			switch jk {
-			case "att", "syncmsg", "syncagg":
+			case "att":
+				due = jn <= now
+			case "syncmsg":
+				due = jn <= now && w.msgFlights[jn] == nil
+			case "syncagg":
 				due = jn <= now
 			case "prepepoch":
 				due = jn <= now/w.p || (jn == now/w.p+1 && now%w.p == w.p-1)
@@ -821,7 +1103,7 @@ func (w *c20World) finishSlot(tr *verifsupport.Trace) {
 		case "syncagg":
 			w.syncAgg(tr, n, false)
 		case "prepepoch":
-			w.prepare(tr, n, false)
+			w.prepare(tr, n, false, false)
 		}
 	}
 	w.t.Fatalf("c20: scenario %d: the jobs of slot %d do not run dry", w.sc.Sc, now)
@@ -864,7 +1146,13 @@ func c20RunScenario(t *testing.T, tr *verifsupport.Trace, sc *c20Scenario) {
 			w.emit(tr, verifsupport.Ev{"ev": "Tick", "fired": ok})
 		case "Prepare":
 			w.decide(st.E, st.D)
-			w.prepare(tr, st.E, true)
+			w.prepare(tr, st.E, st.K > 0, true)
+		case "SubEnd":
+			w.subEnd(tr, st.E, true)
+		case "MsgStart":
+			w.msgStart(tr, st.S, st.K, true)
+		case "MsgEnd":
+			w.msgEnd(tr, st.S, st.Ok, true)
 		case "Head":
 			e := w.h.Now() / w.p
 			for i, r := range st.R {
@@ -917,6 +1205,12 @@ func c20RunScenario(t *testing.T, tr *verifsupport.Trace, sc *c20Scenario) {
 		}
 		for _, s := range c20Sorted(w.flightSet()) {
 			w.attEnd(tr, s, false)
+		}
+		for _, s := range w.heldKeys("c20root") {
+			w.msgEnd(tr, s, true, false)
+		}
+		for _, e := range w.heldKeys("c20sub") {
+			w.subEnd(tr, e, false)
 		}
 	}
 }
@@ -1050,6 +1344,20 @@ func c20RunReal(t *testing.T, tr *verifsupport.Trace, sc *c20Scenario) {
 	var sched *advancedscheduler.Service
 	var handler func(*apiv1.Event)
 	slot := uint64(0)
+	rootGates := map[uint64]*c20RootGate{} // head root requests the node keeps back, by the slot they were armed in
+	held := map[uint64]*c20Gate{}          // slot -> gate armed for its attestation data request
+	// heldRunning: the attestation jobs whose request is with the node (they have left the table and run)
+	heldRunning := func() map[uint64]bool {
+		res := map[uint64]bool{}
+		w.node.mu.Lock()
+		for s, g := range held {
+			if g.taken {
+				res[s] = true
+			}
+		}
+		w.node.mu.Unlock()
+		return res
+	}
 	sample := func(ev string) {
 		now := uint64(wall.CurrentSlot())
 		out := w.project(verifsupport.Ev{"ev": ev, "slotms": sc.SlotMs}, sched.ListJobs(ctx), now)
@@ -1064,8 +1372,19 @@ func c20RunReal(t *testing.T, tr *verifsupport.Trace, sc *c20Scenario) {
 			}
 			return res
 		}
-		out["stalepend"] = stale(out["pend"].([]uint64))
+		// ... except the attestations whose request the node is keeping back: they are running (however old their
+		// slot is), their marks are looked at whatever their age
+		run := heldRunning()
+		stalepend := stale(out["pend"].([]uint64))
+		for _, x := range out["pend"].([]uint64) {
+			if run[x] && x+6 > now {
+				stalepend = append(stalepend, x)
+			}
+		}
+		sort.Slice(stalepend, func(i, j int) bool { return stalepend[i] < stalepend[j] })
+		out["stalepend"] = stalepend
 		out["stalejobs"] = stale(out["attjobs"].([]uint64))
+		out["running"] = c20Sorted(run)
 		tr.Emit(out)
 	}
 	waitUntil := func(at time.Time) {
@@ -1073,7 +1392,6 @@ func c20RunReal(t *testing.T, tr *verifsupport.Trace, sc *c20Scenario) {
 			time.Sleep(d)
 		}
 	}
-	held := map[uint64]*c20Gate{} // slot -> gate armed for it
 	attFetches := func(e uint64) int {
 		w.h.mu.Lock()
 		defer w.h.mu.Unlock()
@@ -1090,17 +1408,26 @@ func c20RunReal(t *testing.T, tr *verifsupport.Trace, sc *c20Scenario) {
 		for k, x := range extra {
 			out[k] = x
 		}
-		pendprobe, jobsprobe, run := []uint64{}, []uint64{}, []uint64{}
-		if w.h.Svc.HasPendingAttestations(ctx, phase0.Slot(s)) {
-			pendprobe = append(pendprobe, s)
-		}
-		if sched.JobExists(ctx, c03JobName("att", s)) {
-			jobsprobe = append(jobsprobe, s)
-		}
+		// every job the node is keeping back is running (s among them, or no longer), and is looked at
+		set := heldRunning()
+		delete(set, s)
 		if running {
-			run = append(run, s)
+			set[s] = true
 		}
-		out["pendprobe"], out["jobsprobe"], out["running"] = pendprobe, jobsprobe, run
+		look := map[uint64]bool{s: true}
+		for x := range set {
+			look[x] = true
+		}
+		pendprobe, jobsprobe := []uint64{}, []uint64{}
+		for _, x := range c20Sorted(look) {
+			if w.h.Svc.HasPendingAttestations(ctx, phase0.Slot(x)) {
+				pendprobe = append(pendprobe, x)
+			}
+			if sched.JobExists(ctx, c03JobName("att", x)) {
+				jobsprobe = append(jobsprobe, x)
+			}
+		}
+		out["pendprobe"], out["jobsprobe"], out["running"] = pendprobe, jobsprobe, c20Sorted(set)
 		tr.Emit(out)
 	}
 	release := func(s uint64) {
@@ -1208,6 +1535,38 @@ func c20RunReal(t *testing.T, tr *verifsupport.Trace, sc *c20Scenario) {
 			}
 		case "Prepare":
 			w.decide(st.E, st.D)
+			if st.K > 0 {
+				// the node keeps the next beacon committee subscription of the epoch back (SubEnd)
+				w.subsc.arm(st.E, true)
+			}
+		case "SubEnd":
+			w.subsc.arm(st.E, false)
+			if w.releaseRaw("c20sub", st.E) {
+				time.Sleep(dur / 10)
+				sample("Sample")
+			}
+		case "MsgStart":
+			if st.K > 0 {
+				// the node keeps the head root request of this slot's sync committee message job back
+				// while the jobs of the following slots run (MsgEnd); the scheduler starts the job itself
+				rootGates[st.S] = w.roots.arm(st.S)
+			}
+		case "MsgEnd":
+			w.node.mu.Lock()
+			w.node.rootOK = st.Ok
+			w.node.mu.Unlock()
+			if g := rootGates[st.S]; g != nil {
+				delete(rootGates, st.S)
+				if !w.roots.disarm(g) {
+					w.roots.mu.Lock()
+					g.ok = st.Ok
+					w.roots.mu.Unlock()
+					if w.releaseRaw("c20root", st.S) {
+						time.Sleep(dur / 10)
+						sample("Sample")
+					}
+				}
+			}
 		case "Head":
 			for i, r := range st.R {
 				w.h.Reorg(int64(r) - 1)
@@ -1248,7 +1607,7 @@ func c20RunReal(t *testing.T, tr *verifsupport.Trace, sc *c20Scenario) {
 			deliver()
 		case "AttStart":
 			w.node.setOutcome(st.S, st.Ok)
-			if st.S == slot && refreshedInFlight(i, st.S) {
+			if st.S == slot && (refreshedInFlight(i, st.S) || st.K > 0) {
 				held[st.S] = w.node.arm(st.S, st.Ok)
 			}
 		case "AttEnd":
@@ -1266,6 +1625,14 @@ func c20RunReal(t *testing.T, tr *verifsupport.Trace, sc *c20Scenario) {
 	}
 	for s := range held {
 		release(s)
+	}
+	for s, g := range rootGates {
+		if !w.roots.disarm(g) {
+			w.releaseRaw("c20root", s)
+		}
+	}
+	for _, e := range w.heldKeys("c20sub") {
+		w.releaseRaw("c20sub", e)
 	}
 	// Let the last jobs finish (the chain goes on: a head event per slot, no reorg), then look once more.
 	for k := uint64(1); k <= 8; k++ {
